@@ -56,6 +56,8 @@ type accFn struct {
 	a    *accPass
 	n    *FNode
 	body *ast.BlockStmt
+	// go statements whose literal is a goroutine root (walked separately): only their arguments are evaluated here
+	rootGo map[*ast.GoStmt]bool
 }
 
 func heldKey(h []string) string { return strings.Join(h, ",") }
@@ -573,6 +575,12 @@ func (f *accFn) stmt(s ast.Stmt, held []string) []string {
 		}
 		f.call(s.Call, []string{}) // runs at function exit: assume no lock is held any more
 	case *ast.GoStmt:
+		if f.rootGo[s] {
+			for _, arg := range s.Call.Args {
+				f.expr(arg, held) // evaluated by the forking goroutine
+			}
+			return held
+		}
 		f.a.unrecognised(s, f.n, "nested go statement")
 		f.call(s.Call, []string{})
 	case *ast.AssignStmt:
@@ -1077,15 +1085,16 @@ func (f *accFn) call(call *ast.CallExpr, held []string) {
 
 // ---- driver
 
-func findGoroutineRoots(p *Prog) (lits []*ast.FuncLit, encl *ast.FuncDecl, problems []string) {
+func findGoroutineRoots(p *Prog) (lits []*ast.FuncLit, gos []*ast.GoStmt, encl *ast.FuncDecl, problems []string) {
 	n := p.findMethod("genetics", "ParallelPopulationEpochExecutor", "reproduce")
 	if n == nil {
-		return nil, nil, []string{"method (*genetics.ParallelPopulationEpochExecutor).reproduce not found"}
+		return nil, nil, nil, []string{"method (*genetics.ParallelPopulationEpochExecutor).reproduce not found"}
 	}
 	ast.Inspect(n.Body, func(x ast.Node) bool {
 		if g, ok := x.(*ast.GoStmt); ok {
 			if l, ok := ast.Unparen(g.Call.Fun).(*ast.FuncLit); ok {
 				lits = append(lits, l)
+				gos = append(gos, g)
 			} else {
 				problems = append(problems, "go statement whose callee is not a function literal ("+p.pos(g)+")")
 			}
@@ -1095,13 +1104,74 @@ func findGoroutineRoots(p *Prog) (lits []*ast.FuncLit, encl *ast.FuncDecl, probl
 	if len(lits) == 0 {
 		problems = append(problems, "no go statement in (*genetics.ParallelPopulationEpochExecutor).reproduce")
 	}
-	return lits, n.Decl, problems
+	return lits, gos, n.Decl, problems
+}
+
+// walkMainRegion: the part of the forking function that runs CONCURRENTLY with the workers - from the statement that
+// contains the first go statement (the whole loop, if the go statement sits in a loop at the top level of the
+// function) up to, not including, the call of (*sync.WaitGroup).Wait.  Its accesses are subject to the same
+// discipline as the workers' (they are not "before the fork / after the join").
+func (a *accPass) walkMainRegion(encl *ast.FuncDecl, gos []*ast.GoStmt) {
+	if encl == nil || len(gos) == 0 {
+		return
+	}
+	p := a.p
+	fn, _ := p.info.Defs[encl.Name].(*types.Func)
+	main := &FNode{Name: "(*genetics.ParallelPopulationEpochExecutor).reproduce$main", Fn: fn, Decl: encl, Body: encl.Body, Pkg: p.pkgs[p.modPath+"/neat/genetics"]}
+	a.reached[main.Name] = true
+	f := &accFn{a: a, n: main, body: encl.Body, rootGo: map[*ast.GoStmt]bool{}}
+	for _, g := range gos {
+		f.rootGo[g] = true
+	}
+	first := -1
+	for i, st := range encl.Body.List {
+		if gos[0].Pos() >= st.Pos() && gos[0].End() <= st.End() {
+			first = i
+			break
+		}
+	}
+	if first < 0 {
+		a.unrec["main region: go statement not found at the top level of "+main.Name] = true
+		return
+	}
+	switch encl.Body.List[first].(type) {
+	case *ast.ForStmt, *ast.RangeStmt, *ast.GoStmt:
+	default:
+		a.unrecognised(encl.Body.List[first], main, "go statement nested in an unsupported statement (expected: a loop or the go statement itself)")
+	}
+	isWait := func(st ast.Stmt) bool {
+		es, ok := st.(*ast.ExprStmt)
+		if !ok {
+			return false
+		}
+		call, ok := ast.Unparen(es.X).(*ast.CallExpr)
+		if !ok {
+			return false
+		}
+		res := p.resolveCall(call, encl.Body)
+		return res.ExtFn != nil && p.extName(res.ExtFn) == "(*sync.WaitGroup).Wait"
+	}
+	held := []string{}
+	joined := false
+	for _, st := range encl.Body.List[first:] {
+		if isWait(st) {
+			joined = true
+			break
+		}
+		for _, g := range gos[1:] {
+			_ = g
+		}
+		held = f.stmt(st, held)
+	}
+	if !joined {
+		a.unrecognised(encl, main, "no (*sync.WaitGroup).Wait() after the go statement: join not found")
+	}
 }
 
 func translateAccess(p *Prog) string {
 	a := &accPass{p: p, rows: map[string]accRow{}, writes: map[string]fieldRow{}, reads: map[string]fieldRow{}, ext: map[string]bool{},
 		unrec: map[string]bool{}, done: map[string]bool{}, reached: map[string]bool{}, freshMemo: map[*FNode]bool{}}
-	lits, encl, problems := findGoroutineRoots(p)
+	lits, gos, encl, problems := findGoroutineRoots(p)
 	for _, pr := range problems {
 		a.unrec[pr] = true
 	}
@@ -1109,6 +1179,7 @@ func translateAccess(p *Prog) string {
 		root := p.litNode(l, fmt.Sprintf("(*genetics.ParallelPopulationEpochExecutor).reproduce$go%d", i+1), p.pkgs[p.modPath+"/neat/genetics"], encl)
 		a.enqueue(root, []string{})
 	}
+	a.walkMainRegion(encl, gos)
 	for len(a.work) > 0 {
 		w := a.work[0]
 		a.work = a.work[1:]
